@@ -122,8 +122,11 @@ class WalkOptions:
     domain: str = 'int'
     raise_depth: int = 3
     axioms: Optional[Callable] = None     # (known: dict, atom) -> Optional[bool]; invariants the caller may assume
-    inline_full: frozenset = frozenset()  # qualnames of package callees walked inline when called as a statement
+    inline_full: frozenset = frozenset({'<private>'})  # callees walked inline: qualnames, or '<private>' = every private helper
     invalidate: bool = True               # forget facts about fields a call may have written
+    # the package's own established private API that rules anchor on by name: kept as opaque calls
+    no_full_inline: frozenset = frozenset({'_get_cell_pos_as_tuple', '_score_model_for_search', '_run_model_for_search',
+                                           '_run_model_for_batch'})
 
 
 def _is_single_return(fn: FuncInfo) -> Optional[ast.expr]:
@@ -131,6 +134,21 @@ def _is_single_return(fn: FuncInfo) -> Optional[ast.expr]:
     if len(b) == 1 and isinstance(b[0], ast.Return) and b[0].value is not None:
         return b[0].value
     return None
+
+
+def _straight_line(fn: FuncInfo):
+    """A helper whose body is `name = expr` assignments followed by one `return expr` (no branches, no stores to
+    anything but plain locals): it can be evaluated in place of the call like a single expression."""
+    b = fn.body
+    if len(b) < 2 or not isinstance(b[-1], ast.Return) or b[-1].value is None:
+        return None
+    for st in b[:-1]:
+        if not (isinstance(st, ast.Assign) and len(st.targets) == 1 and isinstance(st.targets[0], (ast.Name, ast.Tuple))):
+            return None
+        tg = st.targets[0]
+        if isinstance(tg, ast.Tuple) and not all(isinstance(e, ast.Name) for e in tg.elts):
+            return None
+    return b
 
 
 class Walker:
@@ -275,7 +293,7 @@ class Walker:
             sub_opts = WalkOptions(unroll=min(opts.unroll, 1), inline_depth=opts.inline_depth,
                                    no_inline=opts.no_inline, callee_raises=True, max_paths=opts.max_paths,
                                    prune=opts.prune, domain=opts.domain, raise_depth=opts.raise_depth - 1,
-                                   axioms=opts.axioms)
+                                   axioms=opts.axioms, inline_full=opts.inline_full)
             try:
                 ps = self.paths(fn, sub_opts)
             except PathExplosion:
@@ -435,6 +453,22 @@ class _Ctx:
         return states
 
     def stmt(self, s: ast.stmt, states: List[State]) -> List[State]:
+        if self.opts.inline_full and not getattr(s, '_hoisted', False):
+            s, states = self._hoist_nested(s, states)
+            try:
+                s._hoisted = True
+            except Exception:
+                pass
+            live = [x for x in states if x.status == 'normal']
+            done = [x for x in states if x.status != 'normal']
+            if done:
+                m0 = getattr(self, 'st_' + type(s).__name__, None)
+                if m0 is None:
+                    raise AnalysisError(f"{self.fn.module.relpath}:{s.lineno}: statement kind {type(s).__name__} is not supported by the CFG builder")
+                out0 = list(done)
+                for st0 in live:
+                    out0.extend(m0(s, st0))
+                return out0
         m = getattr(self, 'st_' + type(s).__name__, None)
         if m is None:
             raise AnalysisError(f"{self.fn.module.relpath}:{s.lineno}: statement kind {type(s).__name__} is not "
@@ -466,9 +500,69 @@ class _Ctx:
         if tgt.kind != 'pkg' or len(tgt.funcs) != 1 or tgt.via == 'ctor':
             return None
         callee = tgt.funcs[0]
-        if callee.qualname not in self.opts.inline_full or callee.qualname in self.inline_stack or callee.qualname == self.fn.qualname:
+        wanted = callee.qualname in self.opts.inline_full or \
+            ('<private>' in self.opts.inline_full and callee.name.startswith('_') and not callee.name.startswith('__')
+             and callee.parent is None)
+        if not wanted or callee.qualname in self.inline_stack or callee.qualname == self.fn.qualname or \
+                callee.name in self.opts.no_full_inline:
             return None
+        if _is_single_return(callee) is not None or _straight_line(callee) is not None:
+            return None         # evaluated in place like an expression
         return callee, tgt
+
+    def _hoist_nested(self, s: ast.stmt, states: List[State]):
+        """Calls to fully-inlined helpers nested inside a statement's expressions are evaluated first, into temporaries
+        (A-normal form), so that their bodies can fork the path like any statement-level call."""
+        if not self.opts.inline_full:
+            return s, states
+        exprs = []
+        if isinstance(s, (ast.Expr, ast.Return)) and s.value is not None:
+            exprs = [s.value]
+        elif isinstance(s, (ast.Assign, ast.AugAssign, ast.AnnAssign)) and s.value is not None:
+            exprs = [s.value]
+        elif isinstance(s, (ast.If, ast.While)):
+            exprs = [s.test] if isinstance(s, ast.If) else []
+        elif isinstance(s, ast.For):
+            exprs = [s.iter]
+        if not exprs or not states:
+            return s, states
+        top = exprs[0]
+        found = []
+
+        def visit(n, is_top):
+            for c in ast.iter_child_nodes(n):
+                if isinstance(c, (ast.Lambda, ast.ListComp, ast.SetComp, ast.DictComp, ast.GeneratorExp)):
+                    continue
+                visit(c, False)
+            if isinstance(n, ast.Call) and not (is_top and isinstance(s, (ast.Expr, ast.Return, ast.Assign))):
+                if self._full_inline_target(n, states[0]) is not None:
+                    found.append(n)
+        visit(top, True)
+        if not found:
+            return s, states
+        import copy
+        s2 = copy.deepcopy(s)
+        # map original nodes to their copies by position
+        orig_nodes = list(ast.walk(s))
+        copy_nodes = list(ast.walk(s2))
+        mapping = {id(o): c for o, c in zip(orig_nodes, copy_nodes)}
+        for k, n in enumerate(found):
+            name = f"__h{getattr(n, 'lineno', 0)}_{k}"
+            pre = ast.Assign(targets=[ast.Name(id=name, ctx=ast.Store())], value=n, lineno=n.lineno, col_offset=0)
+            ast.fix_missing_locations(pre)
+            states = self.stmt(pre, [x for x in states if x.status == 'normal']) + [x for x in states if x.status != 'normal']
+            cn = mapping[id(n)]
+            repl = ast.Name(id=name, ctx=ast.Load())
+            ast.copy_location(repl, cn)
+            for parent in ast.walk(s2):
+                for fld, val in ast.iter_fields(parent):
+                    if val is cn:
+                        setattr(parent, fld, repl)
+                    elif isinstance(val, list):
+                        for i, x in enumerate(val):
+                            if x is cn:
+                                val[i] = repl
+        return s2, states
 
     def inline_statement_call(self, e: ast.Call, st: State, callee: FuncInfo, tgt: CallTarget):
         """Walk the callee's body in place of the call: returns [(state, returned term)]."""
@@ -1079,6 +1173,8 @@ class _Ctx:
             return FConst(len(t.items) > 0)
         if isinstance(t, App) and t.fn == 'bool' and len(t.args) == 1:
             return self.formula(t.args[0], st)
+        if isinstance(t, Sym) and t.name.startswith('*') and not t.name.startswith('**'):
+            return mk_cmp(App('len', (t,)), '!=', Num(Fraction(0)))      # truthiness of the *args tuple
         # truthiness of a package instance goes through its __bool__ / __len__ (language fact)
         tt = self.term_type(t)
         if tt and tt[0] in ('list', 'dict'):
@@ -1419,8 +1515,11 @@ class _Ctx:
         if callee.qualname in self.inline_stack:
             return None
         expr = _is_single_return(callee)
+        body = None
         if expr is None:
-            return None
+            body = _straight_line(callee)
+            if body is None:
+                return None
         skip_self = callee.cls is not None and not callee.is_static and callee.parent is None
         benv = self.bind_args(callee, recv, args, kw, st, skip_self)
         if benv is None:
@@ -1428,8 +1527,18 @@ class _Ctx:
         sub_ctx = _Ctx(self.w, callee, self.opts, self.inline_stack + (callee.qualname,),
                        root_types=self.root_types if self.root_types is not None else self.types)
         saved_env = st.env
-        st.env = benv
+        st.env = dict(benv)
         try:
+            if body is not None:
+                for stmt in body[:-1]:
+                    v = sub_ctx.ev(stmt.value, st)
+                    tg = stmt.targets[0]
+                    if isinstance(tg, ast.Name):
+                        st.env[tg.id] = v
+                    else:
+                        for i, el in enumerate(tg.elts):
+                            st.env[el.id] = v.items[i] if isinstance(v, TupleT) and len(v.items) == len(tg.elts) else Sub(v, Num(Fraction(i)))
+                expr = body[-1].value
             return sub_ctx.ev(expr, st)
         finally:
             st.env = saved_env
@@ -1444,11 +1553,20 @@ class _Ctx:
             q = st.env[f.id].name[6:-1]
             if q in self.prog.functions:
                 tgt = CallTarget('pkg', [self.prog.functions[q]], via='local', name=f.id)
+        bound_recv = None
+        if isinstance(f, ast.Name) and f.id in st.env and isinstance(st.env[f.id], Attr):
+            # a local holding a bound method of a package instance (reaching definition on this path)
+            bt0 = self.term_type(st.env[f.id].base)
+            if bt0 and bt0[0] == 'inst':
+                ms0 = self.prog.lookup_method(bt0[1], st.env[f.id].name)
+                if ms0 and not ms0[0].is_property:
+                    tgt = CallTarget('pkg', [ms0[0]], via='method', name=st.env[f.id].name, recv_type=bt0)
+                    bound_recv = st.env[f.id].base
         if tgt.resolved:
             self.w.stats['calls_resolved'] += 1
         else:
             self.w.stats['calls_unresolved'] += 1
-        recv = None
+        recv = bound_recv
         if isinstance(f, ast.Attribute):
             if isinstance(f.value, ast.Call) and isinstance(f.value.func, ast.Name) and f.value.func.id == 'super':
                 sn = self.ti._self_name(self.fn) or 'self'
@@ -1464,6 +1582,8 @@ class _Ctx:
             if b == 'abs' and len(args) == 1:
                 return mk_abs(args[0])
             if b == 'isinstance' and len(args) == 2:
+                if isinstance(args[1], TupleT):
+                    return BoolT(f_or(*[AIsInst(args[0], t) for t in args[1].items]))
                 return BoolT(AIsInst(args[0], args[1]))
             if b == 'hasattr' and len(args) == 2:
                 return BoolT(ATruthy(App('hasattr', tuple(args))))
